@@ -674,6 +674,43 @@ func checkVerifierAlgos(c *km.Ctx, s *km.Sem) {
 		if n == 0 {
 			r.AnchorLost("R-C04-1", "algorithm set construction in getJoseKeymastedVerifierList")
 		}
+		checkVerifierListFresh(c, s, "R-C04-1")
+	}
+}
+
+// checkVerifierListFresh: the verifier list is computed from the keys published at the time of the call; the set
+// of published keys grows when the server is unsealed, so a list remembered from before would make the server
+// refuse the tokens it signs afterwards.
+func checkVerifierListFresh(c *km.Ctx, s *km.Sem, rule string) {
+	fn := c.MustFunc(rule, "cmd/keymasterd", "(*RuntimeState).getJoseKeymastedVerifierList")
+	if fn == nil {
+		return
+	}
+	for _, rc := range s.RetCases(fn) {
+		if len(rc.Results) != 2 || !km.IsNilConst(rc.Results[1]) {
+			continue
+		}
+		v := km.Unwrap(rc.Results[0])
+		stale := ""
+		var walk func(v ssa.Value, depth int)
+		walk = func(v ssa.Value, depth int) {
+			v = km.Unwrap(v)
+			if depth > 4 || stale != "" {
+				return
+			}
+			if _, path, ok := km.FieldPath(v); ok {
+				stale = "returns the stored field " + path
+				return
+			}
+			if phi, ok := v.(*ssa.Phi); ok {
+				for _, e := range phi.Edges {
+					walk(e, depth+1)
+				}
+			}
+		}
+		walk(v, 0)
+		// a list stored into a field and handed out later is the same thing
+		c.R.Add(rule, km.FuncName(fn), "verifier list computed at call time", posOf(c, rc.Ret), "the returned list is built in this call from the currently published keys, not read back from a field", stale, stale == "")
 	}
 }
 
